@@ -116,10 +116,8 @@ def install_handler_recorder(I):
     def collect_errors(I, h, schema_errors, original_exc=None):
         cur().ghost.setdefault("offered", []).append(schema_errors)
         if not I.truth(fld(h, "_lazy")):
-            k = cur().choose([("empty", None), ("raise_first", None)], "collect_errors(eager)")
-            if k == 1:
-                raise PyExc(I.make_exc(SchemaError))
-            return None
+            # a SchemaErrors always carries at least one error: eager collection raises the first
+            raise PyExc(I.make_exc(SchemaError))
         fld(h, "_collected_errors").append(schema_errors)
         fld(h, "_schema_errors").append(schema_errors)
         return None
